@@ -2,8 +2,8 @@ package main
 
 import (
 	"fmt"
-	"strings"
 	"path/filepath"
+	"strings"
 
 	"verif/layera"
 	"verif/layerb"
